@@ -101,9 +101,18 @@ impl<'n> TryFromNode<'n> for Field {
             let module = namespace.as_ref().map(|n| n.rust_mod_name.clone());
 
             let xml_name = ref_node.xml_name().ok_or(WriterError::InvalidReference)?;
-            let rust_type = RustFieldType::Other(OtherRustType {
-                name: as_type_name(xml_name),
-                module,
+            // a global element of a builtin type is only a type alias in the output; yaserde needs to
+            // see the primitive itself
+            let builtin = ref_node
+                .rust_type
+                .try_as_element()
+                .and_then(super::structures::element::ElementProps::rust_type)
+                .filter(|t| !t.is_other());
+            let rust_type = builtin.unwrap_or_else(|| {
+                RustFieldType::Other(OtherRustType {
+                    name: as_type_name(xml_name),
+                    module,
+                })
             });
 
             return Ok(Field {
